@@ -2,3 +2,5 @@ import Biogo.Properties.C04_seq
 open Biogo.Properties.C04_seq
 #print axioms fasta_layout_independent
 #print axioms fasta_rewrap
+#print axioms fastq_layout_independent
+#print axioms fastq_layout_independent_plain
